@@ -1,7 +1,10 @@
 package main
 
 import (
+	"fmt"
 	"go/ast"
+	"go/types"
+	"os"
 	"sort"
 	"strconv"
 	"strings"
@@ -11,12 +14,16 @@ import (
 
 const fiberCtx = "(*github.com/gofiber/fiber/v2.Ctx)"
 
-// mapLiteralKeys reads the keys of a package-level map/slice composite literal
-// whose keys (or elements) are named constants; returns the constants' string values.
-func mapLiteralKeys(p *Program, pkg, varName string) map[string]bool {
+// pkgLitVars: the package-level variables initialised with a composite literal: name -> (type, constant keys or
+// elements as strings).
+type litVar struct {
+	typ  string
+	keys map[string]bool
+}
+
+func pkgLitVars(p *Program, pkg string) map[string]litVar {
 	pk := p.Pkg(pkg)
-	out := map[string]bool{}
-	found := false
+	out := map[string]litVar{}
 	for _, f := range pk.Syntax {
 		for _, d := range f.Decls {
 			gd, ok := d.(*ast.GenDecl)
@@ -29,31 +36,80 @@ func mapLiteralKeys(p *Program, pkg, varName string) map[string]bool {
 					continue
 				}
 				for i, n := range vs.Names {
-					if n.Name != varName || i >= len(vs.Values) {
+					if i >= len(vs.Values) {
 						continue
 					}
 					cl, ok := vs.Values[i].(*ast.CompositeLit)
 					if !ok {
 						continue
 					}
-					found = true
+					lv := litVar{keys: map[string]bool{}}
+					if tv, ok := pk.TypesInfo.Types[cl]; ok && tv.Type != nil {
+						lv.typ = shortType(tv.Type)
+					}
 					for _, el := range cl.Elts {
 						var ke ast.Expr = el
 						if kv, ok := el.(*ast.KeyValueExpr); ok {
 							ke = kv.Key
 						}
 						if tv, ok := pk.TypesInfo.Types[ke]; ok && tv.Value != nil {
-							out[strings.Trim(tv.Value.ExactString(), `"`)] = true
+							lv.keys[strings.Trim(tv.Value.ExactString(), `"`)] = true
 						}
 					}
+					out[n.Name] = lv
 				}
 			}
 		}
 	}
-	if !found {
-		broken("anchor %s.%s (composite literal) does not resolve", pkg, varName)
-	}
 	return out
+}
+
+// mapLiteralKeys reads the keys of a package-level map/slice composite literal
+// whose keys (or elements) are named constants; returns the constants' string values. A table that no longer
+// exists under its reference name is looked for among the tables that are new, by type and content.
+func mapLiteralKeys(p *Program, pkg, varName string) map[string]bool {
+	vars := pkgLitVars(p, pkg)
+	if lv, ok := vars[varName]; ok {
+		return lv.keys
+	}
+	if ref, ok := theRefTable().Vars[pkg][varName]; ok && os.Getenv("VGW_NORENAME") == "" {
+		refKeys := map[string]bool{}
+		for _, k := range ref.Keys {
+			refKeys[k] = true
+		}
+		best, bestS, second := "", 0.0, 0.0
+		for n, lv := range vars {
+			if _, known := theRefTable().Vars[pkg][n]; known {
+				continue
+			}
+			inter, union := 0, len(refKeys)
+			for k := range lv.keys {
+				if refKeys[k] {
+					inter++
+				} else {
+					union++
+				}
+			}
+			sc := 0.0
+			if union > 0 {
+				sc = float64(inter) / float64(union)
+			}
+			if lv.typ == ref.Type {
+				sc += 0.5
+			}
+			if sc > bestS {
+				best, second, bestS = n, bestS, sc
+			} else if sc > second {
+				second = sc
+			}
+		}
+		if best != "" && bestS >= 0.8 && bestS-second >= 0.3 {
+			fmt.Fprintf(os.Stderr, "note: anchor relocated: table %s.%s is taken to be %s of the reference tree (similarity %.2f, next %.2f)\n", pkg, best, varName, bestS, second)
+			return vars[best].keys
+		}
+	}
+	broken("anchor %s.%s (composite literal) does not resolve", pkg, varName)
+	return nil
 }
 
 // argRoots: all origin roots of the arguments of a call, looking into struct
@@ -532,9 +588,8 @@ func c03Single(p *Program, r *Report) {
 			cut = append(cut, ce.holds)
 		}
 	}
-	for _, c := range callsTo(f, "auth.verifyACL") {
-		cut = append(cut, successEdges(c)...)
-	}
+	_, grant := aclVerdicts(f)
+	cut = append(cut, grant...)
 	n := 0
 	for _, s := range errReturnSites(f) {
 		k := fnName(f) + "/return#" + itoa(n)
@@ -713,3 +768,47 @@ func c03Roles(p *Program, r *Report) {
 }
 
 var _ = sort.Strings
+
+// isACLCheckFn: the ACL verdict, by role: a function of package auth that is given a value of type auth.ACL
+// (parameter or receiver) and answers with one error or one bool (verifyACL, or whatever it is renamed or moved to).
+func isACLCheckFn(g *ssa.Function) bool {
+	if g == nil || g.Pkg == nil || g.Pkg.Pkg.Path() != modPath+"/auth" || g.Parent() != nil || len(g.Blocks) == 0 {
+		return false
+	}
+	res := g.Signature.Results()
+	if res.Len() != 1 {
+		return false
+	}
+	if bt, isB := res.At(0).Type().Underlying().(*types.Basic); !isErrorType(res.At(0).Type()) && !(isB && bt.Kind() == types.Bool) {
+		return false
+	}
+	for _, prm := range g.Params {
+		if nt, ok := types.Unalias(derefType(prm.Type())).(*types.Named); ok && nt.Obj().Name() == "ACL" && nt.Obj().Pkg() == g.Pkg.Pkg {
+			return true
+		}
+	}
+	return false
+}
+
+// aclVerdicts: the calls of f to the ACL verdict and the edges on which it grants.
+func aclVerdicts(f *ssa.Function) (calls []ssa.CallInstruction, grant []edge) {
+	for _, c := range callsIn(f) {
+		if !isACLCheckFn(c.Common().StaticCallee()) {
+			continue
+		}
+		if _, isCall := c.(*ssa.Call); !isCall {
+			continue
+		}
+		calls = append(calls, c)
+		if isErrorType(c.Value().Type()) {
+			grant = append(grant, successEdges(c)...)
+		} else {
+			for _, cb := range condBranches(c.Value()) {
+				if cb.whenTrue {
+					grant = append(grant, cb.e)
+				}
+			}
+		}
+	}
+	return
+}
